@@ -52,6 +52,12 @@ def writer_sweep(prog: Program, rep: Report) -> None:
                     rep.ok("R1.1", "writer test/store", where)
                 elif local_alias_is_enumerable(node, par, parents):
                     rep.ok("R1.1", "writer local alias", where, "aliased to a local that is only tested or used through close/wait_closed/is_closing in the same function")
+                elif isinstance(par, ast.Compare) and all(isinstance(c_, ast.Constant) and c_.value is None for c_ in par.comparators if c_ is not node):
+                    rep.ok("R1.1", "writer test", where)
+                elif isinstance(par, ast.Call) and isinstance(par.func, ast.Name) and par.func.id in ("bool", "isinstance", "id", "type", "callable") and node in par.args:
+                    rep.ok("R1.1", "writer test", where, f"only inspected by {par.func.id}()")
+                elif passed_to_enumerable_param(prog, m, node, par):
+                    rep.ok("R1.1", "writer passed to a closing helper", where, "handed to a repository function whose parameter is only tested or used through close/wait_closed/is_closing")
                 else:
                     rep.bad("R1.1", "writer escapes", where, f"stream writer escapes into `{ast.unparse(par) if par is not None else '?'}`: writes can no longer be enumerated")
             if m.in_package and isinstance(node, ast.Call) and isinstance(node.func, ast.Attribute) and node.func.attr in SEND_METHODS:
@@ -60,6 +66,48 @@ def writer_sweep(prog: Program, rep: Report) -> None:
                     rep.bad("R1.1", f"foreign sender .{node.func.attr}", f"{m.relpath}:{node.lineno}",
                             f"`{ast.unparse(node)[:80]}` sends bytes outside writer.write(unhexlify(signed))")
     rep.analysed["write_sites"] = n_write_sites
+
+
+def _name_uses_enumerable(fn: ast.AST, name: str) -> bool:
+    """Every load of `name` in fn is a truth test, a comparison with None, or the receiver of close / wait_closed / is_closing."""
+    parents: Dict[ast.AST, ast.AST] = {}
+    for nd in ast.walk(fn):
+        for ch in ast.iter_child_nodes(nd):
+            parents[ch] = nd
+    for n in ast.walk(fn):
+        if isinstance(n, ast.Name) and n.id == name:
+            if not isinstance(n.ctx, ast.Load):
+                return False        # re-bound: the name no longer denotes the parameter
+            p = parents.get(n)
+            if isinstance(p, ast.Attribute) and p.attr in ("close", "wait_closed", "is_closing") and isinstance(parents.get(p), ast.Call) and parents[p].func is p:
+                continue
+            if isinstance(p, (ast.If, ast.BoolOp, ast.UnaryOp, ast.While, ast.IfExp)) or (isinstance(p, ast.Compare) and all(isinstance(c_, ast.Constant) and c_.value is None for c_ in p.comparators)):
+                continue
+            return False
+    return True
+
+
+def passed_to_enumerable_param(prog: Program, m: Any, node: ast.AST, par: Any) -> bool:
+    """`helper(self._writer)` / `self._helper(self._writer)` where helper is a function of this module (or a method of a
+    class of this module) and the parameter that receives the writer is only closed / tested there."""
+    if not (isinstance(par, ast.Call) and node in par.args and not any(isinstance(a, ast.Starred) for a in par.args)):
+        return False
+    idx = par.args.index(node)
+    f = par.func
+    fname = f.attr if isinstance(f, ast.Attribute) else f.id if isinstance(f, ast.Name) else None
+    if fname is None:
+        return False
+    cands = [fi for fi in m.all_functions() if fi.qualname.split(".")[-1] == fname]
+    if len(cands) != 1:
+        return False
+    fi = cands[0]
+    params = [a.arg for a in fi.node.args.posonlyargs + fi.node.args.args]
+    is_method = fi.cls is not None and not any(d.split("(")[0].split(".")[-1] == "staticmethod" for d in fi.decorators)
+    if is_method and isinstance(f, ast.Attribute):
+        params = params[1:]
+    if idx >= len(params) or fi.node.args.vararg is not None:
+        return False
+    return _name_uses_enumerable(fi.node, params[idx])
 
 
 def local_alias_is_enumerable(node: ast.AST, par: Any, parents: Dict[ast.AST, ast.AST]) -> bool:
@@ -104,7 +152,7 @@ def run(prog: Program, rep: Report, tier: str) -> None:
     funcs = set()
     total_paths = 0
     for op in A.OPERATIONS:
-        I, outs, fi = A.run_operation(prog, op)
+        I, outs, fi = A.run_operation(prog, op, reply_minlen={0: 12})    # A1
         funcs |= set(I.functions_visited)
         total_paths += len(outs)
         where_op = f"{loc(fi, fi.node)} {fi.qualname}"
